@@ -248,6 +248,95 @@ fn pair(m: &Model, ctx: &mut Ctx, consts: &dyn Fn(&str) -> Option<Val>) {
             ctx.violate("C10.pair", &format!("no-reinsert:{}", key), &f.file, span_line(i), &format!("`if {} ..` removes the definition from the map {} time(s) but re-inserts it {} time(s): a definition can be lost without a warning", cond, removes, inserts));
             continue;
         }
+        // must-reinsert: on every path through the code that has taken the entry out of the map, it is put back
+        // (the re-insertion is a statement of the binding block itself, or of every branch of an if/else / match in it)
+        fn is_insert(e: &syn::Expr) -> bool {
+            matches!(e, syn::Expr::MethodCall(mc) if mc.method == "insert" && tok(&mc.receiver).ends_with("tlds"))
+        }
+        fn must_insert_expr(e: &syn::Expr) -> bool {
+            match e {
+                e if is_insert(e) => true,
+                syn::Expr::Block(b) => must_insert(&b.block),
+                syn::Expr::If(i) => match &i.else_branch {
+                    Some((_, el)) => must_insert(&i.then_branch) && must_insert_expr(el),
+                    None => false,
+                },
+                syn::Expr::Match(m) => !m.arms.is_empty() && m.arms.iter().all(|a| must_insert_expr(&a.body)),
+                _ => false,
+            }
+        }
+        fn must_insert(b: &syn::Block) -> bool {
+            b.stmts.iter().any(|s| match s {
+                syn::Stmt::Expr(e, _) => must_insert_expr(e),
+                _ => false,
+            })
+        }
+        struct R {
+            bad: Vec<(usize, String)>,
+            sites: usize,
+        }
+        fn takes_entry(e: &syn::Expr) -> bool {
+            let t = tok(e);
+            t.contains(".remove_entry(&key)") || t.contains(".remove(&key)")
+        }
+        fn binds(p: &syn::Pat) -> bool {
+            let mut ids = vec![];
+            crate::model::collect_idents(&quote::ToTokens::to_token_stream(p), &mut ids);
+            ids.iter().any(|i| i.chars().next().map(|c| c.is_lowercase()).unwrap_or(false) && i != "mut" && i != "ref" && i != "_")
+        }
+        impl model::DeepCb for R {
+            fn expr(&mut self, e: &syn::Expr) {
+                match e {
+                    syn::Expr::If(i) => {
+                        if let syn::Expr::Let(l) = &*i.cond {
+                            if takes_entry(&l.expr) {
+                                self.sites += 1;
+                                if !must_insert(&i.then_branch) {
+                                    self.bad.push((span_line(i), format!("if let {} = ..remove..", tok(&l.pat))));
+                                }
+                            }
+                        }
+                    }
+                    syn::Expr::Match(m) if takes_entry(&m.expr) => {
+                        self.sites += 1;
+                        for a in &m.arms {
+                            let pt = tok(&a.pat);
+                            if binds(&a.pat) && !pt.starts_with("Err(") && !must_insert_expr(&a.body) {
+                                self.bad.push((span_line(a), format!("match arm {}", pt)));
+                            }
+                        }
+                    }
+                    _ => {}
+                }
+            }
+        }
+        let mut r = R { bad: vec![], sites: 0 };
+        model::deep_walk_expr(&syn::Expr::If((*i).clone()), &mut r);
+        // `let item = ..remove..; ..; if let Some(..) = item { insert }`
+        for (si, st) in i.then_branch.stmts.iter().enumerate() {
+            if let syn::Stmt::Local(l) = st {
+                if let (syn::Pat::Ident(pi), Some(init)) = (&l.pat, &l.init) {
+                    if takes_entry(&init.expr) {
+                        r.sites += 1;
+                        let var = pi.ident.to_string();
+                        let ok = i.then_branch.stmts.iter().skip(si + 1).any(|s2| match s2 {
+                            syn::Stmt::Expr(syn::Expr::If(i2), _) => matches!(&*i2.cond, syn::Expr::Let(l2) if tok(&l2.expr) == var) && must_insert(&i2.then_branch),
+                            _ => false,
+                        });
+                        if !ok {
+                            r.bad.push((span_line(l), format!("let {} = ..remove..", var)));
+                        }
+                    }
+                }
+            }
+        }
+        if r.sites == 0 {
+            ctx.fail_closed("C10.pair", &format!("`if {} ..`: the construct that binds the removed entry was not recognised", key));
+        }
+        for (line, what) in r.bad {
+            ctx.violate("C10.pair", &format!("reinsert-not-on-every-path:{}", key), &f.file, line,
+                &format!("`{}` takes the definition out of the map, but the re-insertion is not reached on every path of the block that holds it (it is conditional or missing): the definition can vanish from the compilation without output and without a warning", what));
+        }
         // accepted variants of refutable patterns on the removed entry
         let mut accepted: BTreeSet<String> = BTreeSet::new();
         for v in &tlds.variants {
